@@ -23,6 +23,7 @@ COMMON = r'''
 #endif
 typedef void (*vf_fnptr)(void);
 typedef long vf_str;        /* opaque string id: equality only */
+struct vf_std_mutex { char opaque; }; /* std::mutex: stateless here (no real threads in the model) */
 typedef int vf_excptr;      /* std::exception_ptr: kind of the stored exception (0 = null, else a VF_EXC_* constant) */
 #define VF_STR_EMPTY ((vf_str)0)
 struct vf_fn { vf_fnptr fn; void* env; };
